@@ -21,6 +21,8 @@ import GoderiveModel.Spec.StructEq
 import GoderiveModel.S.Compare
 import GoderiveModel.S.Hash
 import GoderiveModel.Spec.Order
+import GoderiveModel.S.Methods
+import GoderiveModel.Spec.StructEqM
 
 open Goderive
 
@@ -36,25 +38,32 @@ def runOpCore (s : DState) (name : String) (args : List SExp) : String :=
     | some T, some vals =>
       if !(vals.all (hasType env T)) then "ill-typed" else
       match name, vals with
-      | "equal", [x, y] => s!"model={showRes (Equal.top env T x y)} spec={Spec.structEq env T x y}"
-      | "equalc", [x, y] => s!"model={showRes (Equal.top env T x y)} spec={Spec.structEq env T x y}"
-      | "equalf", [x, y] => s!"model={showRes (Equal.field env T x y)} spec={Spec.structEq env T x y}"
-      | "compare", [x, y] => s!"model={showResI (Compare.top env T x y)} spec={Spec.cmpVal x y}"
-      | "comparec", [x, y] => s!"model={showResI (Compare.top env T x y)} spec={Spec.cmpVal x y}"
-      | "comparef", [x, y] => s!"model={showResI (Compare.field env T x y)} spec={Spec.cmpVal x y}"
+      -- on environments without user methods the M models / specs are the plain ones (Props/C02c)
+      | "equal", [x, y] => s!"model={showRes (EqualM.top env T x y)} spec={Spec.structEqTopM env T x y}"
+      | "equalc", [x, y] => s!"model={showRes (EqualM.top env T x y)} spec={Spec.structEqTopM env T x y}"
+      | "equalf", [x, y] => s!"model={showRes (EqualM.field env T x y)} spec={Spec.structEqM env T x y}"
+      | "compare", [x, y] =>
+        if env.noMethods then s!"model={showResI (Compare.top env T x y)} spec={Spec.cmpVal x y}"
+        else s!"model={showResI (CompareM.top env T x y)}"
+      | "comparec", [x, y] =>
+        if env.noMethods then s!"model={showResI (Compare.top env T x y)} spec={Spec.cmpVal x y}"
+        else s!"model={showResI (CompareM.top env T x y)}"
+      | "comparef", [x, y] =>
+        if env.noMethods then s!"model={showResI (Compare.field env T x y)} spec={Spec.cmpVal x y}"
+        else s!"model={showResI (CompareM.field env T x y)}"
       -- consistency of Compare with Equal: `cmp == 0` iff Equal (the emitted functions on the Go side)
       | "cmpeq", [x, y] =>
-        let c := Compare.top env T x y
-        let e := Equal.top env T x y
+        let c := CompareM.top env T x y
+        let e := EqualM.top env T x y
         let m := match c, e with
           | .ok c, .ok e => toString ((c == 0) == e)
           | _, _ => "panic"
         s!"model={m} spec=true"
-      | "hash", [x] => s!"model={showResU (Hash.top env T x)}"
-      | "hashf", [x] => s!"model={showResU (Hash.field env T x)}"
+      | "hash", [x] => s!"model={showResU (HashM.top env T x)}"
+      | "hashf", [x] => s!"model={showResU (HashM.field env T x)}"
       -- Equal ⇒ same hash, on the emitted functions / on the models
       | "hasheq", [x, y] =>
-        let m := match Equal.top env T x y, Hash.top env T x, Hash.top env T y with
+        let m := match EqualM.top env T x y, HashM.top env T x, HashM.top env T y with
           | .ok e, .ok hx, .ok hy => toString (!e || hx == hy)
           | _, _, _ => "panic"
         s!"model={m} spec=true"
@@ -93,7 +102,11 @@ def step (s : DState) (line : String) : DState × Option String :=
     match parseTy t with
     | some T =>
       let mask := (flags.toList.dropWhile (· != 'm')).drop 1 |>.takeWhile (fun c => c == '0' || c == '1') |>.map (· == '1')
-      let d : Decl := { under := T, external := flags.contains 'e', priv := flags.contains 'p', privMask := mask }
+      let toks := flags.splitOn "."
+      let kind (p v : String) : Option UserFn :=
+        if toks.contains p then some .ptr else if toks.contains v then some .val else none
+      let d : Decl := { under := T, external := flags.contains 'e', priv := flags.contains 'p', privMask := mask,
+                        eqM := kind "Ep" "Ev", cmpM := kind "Cp" "Cv", hashM := kind "Hp" "Hv" }
       ({ s with decls := fixFlags (s.decls.push d) }, none)
     | none => (s, some "bad-decl")
   | some (.atom "ty" :: .atom n :: [t]) =>
